@@ -21,7 +21,12 @@ RULE = ("seeded pools of cap strings of every class (equal, near-equal, read/wri
         "unknown-format strings) wrapped into cap objects (uri.from_string, with and without ro./imm. prefix) and node "
         "objects (direct constructors and NodeMaker.create_from_cap); a case is one ordered pair of objects; distinct = "
         "distinct (object description a, object description b); non-trivial = both operands are nodes or both are caps "
-        "(the pairs the statement speaks about)")
+        "(the pairs the statement speaks about).  Usage states: further pairs are built afresh in two independent NodeMakers, "
+        "compared, then a random subset of read-only accessors (to_string, hash, repr/str, get_readonly, get_verify_cap, "
+        "is_readonly, is_mutable, abbrev/abbrev_si, get_storage_index, get_uri/get_readonly_uri/get_write_uri/get_repair_cap, "
+        "dict/set membership …) is applied to neither / the left / the right / both operands, compared again, applied to the "
+        "other side, compared again, hashed and looked up in dict/set, compared again: ==, !=, symmetry, hash agreement and "
+        "dict/set lookup must follow string equality in every one of these states")
 TRUSTED = ["lean/Tahoe/Identity/Model.lean is a hand transcription of the six classes' comparison methods and of CPython's "
            "rich-comparison dispatch",
            "objects are abstracted to (class, id(), cap string(s)); CPython hash functions are uninterpreted"]
@@ -291,6 +296,194 @@ def run_pairs(ctx, env, objs, pairs, cases, impl, lines):
         lines.append("pair %s %s" % (da[0], db[0]))
 
 
+# ------------------------------------------------------------------------------------------------ usage states
+# Equality must be a function of the capability strings, not of what has been done to the objects before:
+# read-only accessors (which may lazily cache things on the object) are applied to neither / one / both operands
+# between comparisons, on objects built independently (two NodeMakers) and never touched by the harness before.
+
+def _member(x):
+    return (x in {x: 1}) and (x in {x}) and (x in [x])
+
+
+CAP_ACCESSORS = {
+    "to_string": lambda x: x.to_string(),
+    "hash": lambda x: hash(x),
+    "repr": lambda x: repr(x),
+    "str": lambda x: str(x),
+    "get_readonly": lambda x: x.get_readonly(),
+    "get_verify_cap": lambda x: x.get_verify_cap(),
+    "is_readonly": lambda x: x.is_readonly(),
+    "is_mutable": lambda x: x.is_mutable(),
+    "abbrev": lambda x: x.abbrev(),
+    "abbrev_si": lambda x: x.abbrev_si(),
+    "get_storage_index": lambda x: x.get_storage_index(),
+    "get_filenode_cap": lambda x: x.get_filenode_cap(),
+    "readonly.to_string": lambda x: x.get_readonly().to_string(),
+    "verify_cap.to_string": lambda x: x.get_verify_cap().to_string(),
+    "dict/set-membership": _member,
+    "self-compare": lambda x: (x == x, x != x),
+}
+NODE_ACCESSORS = {
+    "get_uri": lambda x: x.get_uri(),
+    "get_readonly_uri": lambda x: x.get_readonly_uri(),
+    "get_write_uri": lambda x: x.get_write_uri(),
+    "get_verify_cap": lambda x: x.get_verify_cap(),
+    "get_repair_cap": lambda x: x.get_repair_cap(),
+    "get_storage_index": lambda x: x.get_storage_index(),
+    "is_readonly": lambda x: x.is_readonly(),
+    "is_mutable": lambda x: x.is_mutable(),
+    "is_unknown": lambda x: x.is_unknown(),
+    "hash": lambda x: hash(x),
+    "repr": lambda x: repr(x),
+    "get_cap": lambda x: x.get_cap(),
+    "get_readcap": lambda x: x.get_readcap(),
+    "get_cap.to_string": lambda x: x.get_cap().to_string(),
+    "get_readcap.to_string": lambda x: x.get_readcap().to_string(),
+    "verify_cap.to_string": lambda x: x.get_verify_cap().to_string(),
+    "get_size": lambda x: x.get_size(),
+    "dict/set-membership": _member,
+    "self-compare": lambda x: (x == x, x != x),
+}
+
+
+def apply_accessors(ctx, o, sort, names):
+    table = CAP_ACCESSORS if sort == "cap" else NODE_ACCESSORS
+    for n in names:
+        f = table.get(n)
+        if f is None:
+            continue
+        try:
+            f(o)
+            ctx.count("accessor:%s:%s" % (sort, n))
+        except Exception as e:       # e.g. UnknownNode.is_readonly() asserts, UnknownNode is unhashable
+            ctx.count("accessor-raised:%s:%s:%s" % (sort, n, type(e).__name__))
+
+
+def observe(a, b):
+    """the comparison operators only (no hash(): that is an accessor)"""
+    return (bool(a == b), bool(a != b), bool(b == a), bool(b != a))
+
+
+def gen_usage(rng, sorts):
+    names = set()
+    for srt in sorts:
+        table = CAP_ACCESSORS if srt == "cap" else NODE_ACCESSORS
+        k = rng.choice([1, 1, 2, 4])
+        names.update(rng.sample(sorted(table), k))
+    return {"first": rng.choice(["none", "left", "left", "right", "right", "both"]), "accessors": sorted(names)}
+
+
+def retag(token, i):
+    """the same object description with another object id"""
+    t = token.split(":")
+    t[1] = str(i)
+    return ":".join(t)
+
+
+def eval_usage(ctx, sa, sb, da, db, same, usage, cases, impl, lines):
+    """sa/sb: specs; da/db: descriptions of twin objects built from the same specs (they tell class, sort and the
+    model token); same: whether the twins carry the same capability strings (None when the statement is silent).
+    Builds a and b afresh in two independent Envs and compares them in every usage state."""
+    ea, eb = Env(), Env()
+    try:
+        a, b = ea.build(sa), eb.build(sb)
+    except Exception as e:
+        ctx.count("build-error:" + type(e).__name__)
+        return
+    if a is None or b is None or type(a).__name__ != da[1] and da[1] != "other" or type(b).__name__ != db[1] and db[1] != "other":
+        ctx.count("usage:skipped-class-changed")
+        return
+    case = {"phase": "usage", "a": sa, "b": sb, "usage": usage}
+    pair = "%s-%s" % (da[1], db[1])
+    first, names = usage["first"], usage["accessors"]
+    obs = [("fresh", observe(a, b))]
+    if first in ("left", "both"):
+        apply_accessors(ctx, a, da[2], names)
+    if first in ("right", "both"):
+        apply_accessors(ctx, b, db[2], names)
+    obs.append((first, observe(a, b)))
+    if first in ("none", "right"):
+        apply_accessors(ctx, a, da[2], names)
+    if first in ("none", "left"):
+        apply_accessors(ctx, b, db[2], names)
+    obs.append(("both", observe(a, b)))
+    ha, hb = try_hash(a), try_hash(b)
+    obs.append(("both+hashed", observe(a, b)))
+    ctx.count("usage-state:" + first)
+    # ---- monitor (the statement, in every usage state)
+    reported = False
+    for state, (eq, ne, req, rne) in obs:
+        if ne == eq or rne == req:
+            ctx.violation("`!=` is not the negation of `==` (usage state %s)" % state, case,
+                          "ne-not-negation:%s:%s" % (pair, "both-true" if eq else "both-false"))
+            reported = True
+        if eq != req:
+            ctx.violation("`==` depends on the operand order (usage state %s)" % state, case, "eq-asymmetric:%s" % pair)
+            reported = True
+    eqs = [o[1][0] for o in obs]
+    if same is not None:
+        wrong = [st for st, o in obs if o[0] != same]
+        if wrong and len(set(eqs)) > 1:
+            ctx.violation("a == b is %s for %s capability strings once read-only accessors %s have been used on: %s "
+                          "(the answers over the usage states fresh/%s/both/both+hashed were %s)" % (
+                              not same, "the same" if same else "different", names, wrong[0], first, eqs), case,
+                          "equality-depends-on-history:%s:%s" % (pair, wrong[0]))
+        elif wrong:
+            ctx.violation("%s capability strings but a == b is %s" % ("same" if same else "different", not same), case,
+                          "eq-mismatch:%s:%s" % (pair, "same-cap-unequal" if same else "different-cap-equal"))
+        if ha is not None and hb is not None:
+            if same and ha != hb:
+                ctx.violation("equal objects hash differently", case, "hash-mismatch:%s" % pair)
+            look = ((b in {a: 1}), (a in {b}), len({a, b}) == 1)
+            if any(x != same for x in look):
+                ctx.violation("dict/set lookup of an object with %s capability strings answered %s" % (
+                    "the same" if same else "different", look), case, "lookup-mismatch:%s" % pair)
+            ctx.count("usage:lookup-checked")
+        ctx.case(("usage", da[0], db[0], first, tuple(names)))
+    else:
+        if len(set(eqs)) > 1 and not reported:
+            # the statement is silent about this pair of classes; the model (a pure function) is not
+            ctx.disagree("== of one pair of objects changed with the usage state", case, str(eqs), "constant")
+        ctx.case(None)
+    # ---- correspondence: the final state against the model
+    eq, ne = obs[-1][1][0], obs[-1][1][1]
+    meq = (type(a).__eq__(a, b), type(b).__eq__(b, a))
+    mne = (type(a).__ne__(a, b), type(b).__ne__(b, a))
+    if ha is None or hb is None:
+        hs = "U" + ("a" if ha is None else "") + ("b" if hb is None else "")
+    else:
+        hs = "E" if ha == hb else "D"
+    cases.append(case)
+    impl.append("eq=%s ne=%s meq=%s,%s mne=%s,%s hash=%s wf=%s,%s" % (
+        r3(eq), r3(ne), r3(meq[0]), r3(meq[1]), r3(mne[0]), r3(mne[1]), hs, r3(da[3]), r3(db[3])))
+    lines.append("pair %s %s" % (retag(da[0], 1), retag(db[0], 2)))
+
+
+def usage_round(ctx, env, objs, n_pairs, cases, impl, lines):
+    """objs: the described pool of this round (used as twins: they say what class and strings a spec yields)"""
+    cand = [k for k, (sp, o, d) in enumerate(objs) if sp["how"] != "other"]
+    if not cand:
+        return
+    bykey = {}
+    for k in cand:
+        bykey.setdefault(objs[k][2][0].split(":")[-1], []).append(k)
+    pairs = []
+    for key, idx in bykey.items():
+        for _ in range(3):
+            pairs.append((ctx.rng.choice(idx), ctx.rng.choice(idx)))      # same strings (possibly the same spec, built twice)
+    ctx.rng.shuffle(pairs)
+    pairs = pairs[:n_pairs]
+    for _ in range(max(4, n_pairs // 5)):
+        pairs.append((ctx.rng.choice(cand), ctx.rng.choice(cand)))
+    for (i, j) in pairs:
+        (sa, ta, da), (sb, tb, db) = objs[i], objs[j]
+        if not parse_functional_ok(ta, tb, da, db):
+            continue
+        applies = da[2] == db[2] and da[2] in ("cap", "node")
+        same = (caps_of(ta, da[2]) == caps_of(tb, db[2])) if applies else None
+        eval_usage(ctx, sa, sb, da, db, same, gen_usage(ctx.rng, (da[2], db[2])), cases, impl, lines)
+
+
 def build_pool(ctx, env, specs):
     objs = []
     for sp in specs:
@@ -315,7 +508,15 @@ def build_pool(ctx, env, specs):
 def run(ctx):
     cases, impl, lines = [], [], []
     env = Env()
-    if ctx.replay:
+    if ctx.replay and ctx.replay["case"].get("phase") == "usage":
+        c = ctx.replay["case"]
+        objs = build_pool(ctx, env, [c["a"], c["b"]])
+        if len(objs) == 2:
+            (sa, ta, da), (sb, tb, db) = objs
+            applies = da[2] == db[2] and da[2] in ("cap", "node")
+            same = (caps_of(ta, da[2]) == caps_of(tb, db[2])) if applies else None
+            eval_usage(ctx, sa, sb, da, db, same, c["usage"], cases, impl, lines)
+    elif ctx.replay:
         c = ctx.replay["case"]
         a = env.build(c["a"])
         b = a if c.get("same_object") else env.build(c["b"])
@@ -346,6 +547,7 @@ def run(ctx):
             for _ in range(120):
                 pairs.append((ctx.rng.randrange(n), ctx.rng.randrange(n)))
             run_pairs(ctx, env, objs, pairs, cases, impl, lines)
+            usage_round(ctx, env, objs, 45, cases, impl, lines)
     model = ctx.model(lines)
     ctx.compare("==, !=, __eq__/__ne__ both ways, hash equality, class invariants of one ordered pair of objects",
                 cases, impl, model)
